@@ -240,18 +240,22 @@ def to_model(case):
             prog[k] = v
     # a pattern route (with converters, or a raw regular expression without) dispatches like a static one
     route = "hit" if c["route"] in ("rx", "raw") else c["route"]
+    # the same request kinds of an application without a document root (other call sites of the dispatcher)
+    route = {"dbgn": "dbg", "defn": "default", "nfn": "nf"}.get(route, route)
     return [mk_case(case.split()[0], route, c["ctor"], c["nb"], c["na"], keep_us,
                     [c["eh"][i] for i in keep_eh], c["digest"], prog)]
 
 
 def get_app(c):
     from poorwsgi import Application, state
-    key = (c["nb"], c["na"], tuple(c["us"]), tuple(c["eh"]), c["digest"], c["route"] == "default",
-           tuple(c["ehm"]), tuple(c["usm"]))
+    noroot = c["route"] in NOROOT_ROUTES
+    key = (c["nb"], c["na"], tuple(c["us"]), tuple(c["eh"]), c["digest"], c["route"] in ("default", "defn"),
+           tuple(c["ehm"]), tuple(c["usm"]), noroot)
     if key in _apps:
         return _apps[key]
     app = Application("verif_wsgi_%d_%d" % (os.getpid(), len(_apps)))
-    app.document_root = root()
+    if not noroot:
+        app.document_root = root()
     if c["digest"]:
         app.secret_key = "k"
         app.auth_type = "Digest"
@@ -287,7 +291,7 @@ def get_app(c):
     app.set_route("/only-post", endpoint, state.METHOD_POST)
     app.set_route("/rx/<n:int>", endpoint, state.METHOD_ALL)
     app.set_regular_route(r"/raw/(\w+)", endpoint, state.METHOD_ALL)
-    if c["route"] == "default":
+    if c["route"] in ("default", "defn"):
         app.set_default(endpoint, state.METHOD_ALL)
 
     def mk_status(code):
@@ -314,7 +318,9 @@ def get_app(c):
 
 
 PATHS = {"hit": "/hit", "wrong": "/only-post", "file": "/f", "dir": "/d/", "forb": "/d/", "dbg": "/debug-info",
-         "default": "/nothing", "nf": "/nothing", "rx": "/rx/12", "raw": "/raw/ab"}
+         "default": "/nothing", "nf": "/nothing", "rx": "/rx/12", "raw": "/raw/ab",
+         "dbgn": "/debug-info", "defn": "/nothing", "nfn": "/nothing"}
+NOROOT_ROUTES = ("dbgn", "defn", "nfn")
 PAGE_RE = re.compile(r"<title>(\d\d\d) - ")
 
 
@@ -337,7 +343,7 @@ def run_case(case, method=None):
     if method is None:
         method = c["meth"]
     app = get_app(c)
-    app.debug = c["route"] == "dbg"
+    app.debug = c["route"] in ("dbg", "dbgn")
     app.document_index = c["route"] == "dir"
     env = {"REQUEST_METHOD": method, "PATH_INFO": PATHS[c["route"]], "QUERY_STRING": "", "SERVER_NAME": "srv",
            "SERVER_PORT": "80", "SERVER_PROTOCOL": "HTTP/1.1", "wsgi.url_scheme": "http",
@@ -555,8 +561,8 @@ def mk_case(prop, route, ctor, nb, na, us, eh, digest, prog, meth=None, ehm=None
     return line
 
 
-ROUTES = ["hit", "wrong", "file", "dir", "forb", "dbg", "default", "nf", "rx", "raw"]
-ENDPOINT_ROUTES = ("hit", "default", "rx", "raw")
+ROUTES = ["hit", "wrong", "file", "dir", "forb", "dbg", "default", "nf", "rx", "raw", "dbgn", "defn", "nfn"]
+ENDPOINT_ROUTES = ("hit", "default", "rx", "raw", "defn")
 
 
 def rand_case(prop, rng, fail=0.4):
